@@ -1165,11 +1165,32 @@ class Interp:
         x, y, J = st.pairs[tg]
         return z.entails_le(J, x, 1)
 
+    def aux_close(self, st):
+        """d = value(hi) - value(lo) (tracked on the side): once the subtrahend is known to be 0, d IS value(hi)"""
+        if not st.aux:
+            return
+        z = st.zone
+
+        def val(pl):
+            if pl[0] == 'loc':
+                v = st.frames.get(pl[1], {}).get(pl[2])
+                return v[1] if isinstance(v, tuple) and len(v) == 2 and v[0] == 'int' else None
+            if pl[0] == 'len' and pl[1] in st.maps:
+                return st.maps[pl[1]].len
+            return None
+        for h, l, d in st.aux:
+            if isinstance(d, int):
+                continue
+            vh, vl = val(h), val(l)
+            if vh is not None and vl is not None and z.entails_eq(vl, 0):
+                z.add_eq(d, vh)
+
     def miss_complete(self, st, mid, upto=None):
         """-> key tag for which the whole live prefix [0, upto) was compared with answer "no"
         (None if there is no such scan; ('<empty>',) when the prefix is empty)"""
         ms = st.maps[mid]
         z = st.zone
+        self.aux_close(st)
         end = ms.len if upto is None else upto
         if z.entails_eq(end, 0):
             return ('<empty>',)
@@ -1407,11 +1428,18 @@ class Interp:
     NEG = {'Eq': 'Ne', 'Ne': 'Eq', 'Lt': 'Ge', 'Ge': 'Lt', 'Le': 'Gt', 'Gt': 'Le'}
 
     def assume_cond(self, st, cond, truth):
+        r = self._assume_cond(st, cond, truth)
+        if r and st.aux:
+            self.aux_close(st)
+            r = st.zone.sat
+        return r
+
+    def _assume_cond(self, st, cond, truth):
         """add comparison (op,a,b) (or its negation) to the zone; returns False if infeasible"""
         op = cond[0]
         z = st.zone
         if op == 'Not':
-            return self.assume_cond(st, cond[1], not truth)
+            return self._assume_cond(st, cond[1], not truth)
         if op in ('OvfAdd', 'OvfSub'):
             _, t, x, y = cond
             if truth:
@@ -1518,7 +1546,38 @@ class Interp:
         if k == 'bin':
             a = self.eval_operand(st, fid, v['l'])
             b = self.eval_operand(st, fid, v['r'])
-            return [(st, self.binop(st, v['op'], a, b))]
+            op = v['op']
+            if op.startswith('Sub') and a[0] == 'int' and b[0] == 'int' and not isinstance(a[1], int) and not isinstance(b[1], int):
+                # the difference of two LOCALS (`at = last - i` with `i` counting down): a difference-bound zone cannot
+                # say at + i == last, so the difference is tracked per pair of places (DESIGN 14.14): every store of
+                # old +- c to one of them shifts it, and the next `last - i` is that very term
+                pl = []
+                for o, val in ((v['l'], a), (v['r'], b)):
+                    q = o.get('copy') or o.get('move')
+                    if q is None or q['proj']:
+                        pl.append(None)
+                        continue
+                    loc = q['local']
+                    al = st.loadcache.get(('alias', fid, loc))
+                    if al is not None and al[1] == val and st.frames.get(fid, {}).get(al[0]) == val:
+                        loc = al[0]         # the temporary is a copy of this local, which still holds that value
+                    pl.append(('loc', fid, loc))
+                z = st.zone
+                if pl[0] is not None and pl[1] is not None and z.entails_le(b[1], a[1]):
+                    d = slots.aux_find(st, pl[0], pl[1])
+                    if d is None:
+                        res = self.binop(st, op, a, b)
+                        r0 = res[1][0] if res[0] == 'tuple' else res
+                        if r0[0] == 'int':
+                            slots.aux_set(st, pl[0], pl[1], r0[1])
+                        return [(st, res)]
+                    if not isinstance(d, int):
+                        z.touch(d)
+                        z.add_le(d, a[1])
+                        if z.entails_le(1, b[1]):
+                            z.add_le(d, a[1], -1)
+                    return [(st, ('tuple', (I(d), FALSE)) if op.endswith('WithOverflow') else I(d))]
+            return [(st, self.binop(st, op, a, b))]
         if k == 'un':
             x = self.eval_operand(st, fid, v['x'])
             op = v['op']
@@ -1718,8 +1777,12 @@ class Interp:
                 # difference-bound zone cannot relate a fresh term to a sum of two others
                 res = aff_norm(aff_add(to_aff(a), to_aff(b), 1))
                 return ('tuple', (res, ('boolu', ('ovf',)))) if checked else res
+            if base == 'Sub' and not isinstance(x, int) and not isinstance(y, int) and z.entails_eq(x, y):
+                return ('tuple', (I(0), FALSE)) if checked else I(0)
             t = fresh('r')
             z.touch(t)
+            if base == 'Sub' and not isinstance(y, int) and z.entails_le(y, x) and z.entails_le(1, y):
+                z.add_le(t, x, -1)      # (x - y <= x - 1 when y >= 1 and nothing wraps)
             if checked:
                 cond = ('OvfAdd' if base == 'Add' else 'OvfSub', t, x, y)
                 d = self.decide(st, cond)
